@@ -16,6 +16,7 @@ type genOpts struct {
 	Flags      bool
 	Always     bool
 	GenSources bool // generated files used as sources of other targets
+	Exts       int  // per cent of projects that require other projects (ext.go)
 }
 
 var textPool = []string{"", "", "one line\n", "first\nsecond\n", "no newline at end", "a\n\nb\n", "x\ny\nz", "\n", "ünï\ncode ✓\n", "tab\there\n" + strings.Repeat("long line ", 30) + "\n", "dos\r\nline\r\n", strings.Repeat("x", 5000) + "\nend"}
@@ -100,6 +101,29 @@ func genProject(r *rand.Rand, o genOpts) *projSpec {
 			}
 			if len(cands) > 0 {
 				m.Funcs[k].Calls = cands[r.IntN(len(cands))]
+			}
+		}
+	}
+
+	if o.Exts > 0 && r.IntN(100) < o.Exts {
+		genExts(r, p, false)
+		var direct []int
+		for e := range p.Exts {
+			if p.Exts[e].Sel >= 0 {
+				direct = append(direct, e)
+			}
+		}
+		for i := 0; i < nm; i++ {
+			// a helper module of the root project that loads a required project's module
+			if m := &p.Modules[i]; len(direct) > 0 && r.IntN(100) < 30 {
+				e := direct[r.IntN(len(direct))]
+				m.LoadExt = append(m.LoadExt, e)
+				for k := range m.Funcs {
+					if m.Funcs[k].Calls == "" {
+						m.Funcs[k].Calls = fmt.Sprintf("ext%d_f", e)
+						break
+					}
+				}
 			}
 		}
 	}
@@ -256,6 +280,9 @@ func genProject(r *rand.Rand, o genOpts) *projSpec {
 			if pk.Flag != "" {
 				kinds = append(kinds, "flag", "flag")
 			}
+			if len(p.Exts) > 0 {
+				kinds = append(kinds, "extconst", "extfunc", "extfunc", "extfunc")
+			}
 			kind := kinds[r.IntN(len(kinds))]
 			ref := refSpec{Kind: kind}
 			switch kind {
@@ -347,6 +374,17 @@ func genProject(r *rand.Rand, o genOpts) *projSpec {
 				ref.Name = m.Funcs[r.IntN(len(m.Funcs))].Name
 			case "flag":
 				ref.Name = pk.Flag
+			case "extconst", "extfunc":
+				var direct []int
+				for e := range p.Exts {
+					if p.Exts[e].Sel >= 0 {
+						direct = append(direct, e)
+					}
+				}
+				if len(direct) == 0 {
+					continue
+				}
+				ref.Mod = direct[r.IntN(len(direct))]
 			}
 			t.Refs = append(t.Refs, ref)
 		}
@@ -372,6 +410,11 @@ func (p *projSpec) helperItems(name string, out map[string]string, seen map[stri
 		return
 	}
 	seen[name] = true
+	var ei int
+	if n, _ := fmt.Sscanf(name, "ext%d_f", &ei); n == 1 && strings.HasPrefix(name, "ext") {
+		p.extItems(ei, true, out, map[int]bool{})
+		return
+	}
 	m, h, mi := p.helper(name)
 	if h == nil {
 		return
@@ -439,6 +482,10 @@ func (p *projSpec) inputItems(t *targetSpec) map[string]string {
 			}
 		case "libfunc":
 			p.helperItems(r.Name, out, map[string]bool{})
+		case "extconst":
+			p.extItems(r.Mod, false, out, map[int]bool{})
+		case "extfunc":
+			p.extItems(r.Mod, true, out, map[int]bool{})
 		case "flag":
 			pk := p.pkg(t.Pkg)
 			v := pk.FlagDef
@@ -574,4 +621,33 @@ func (p *projSpec) buildLabels() []string {
 		}
 	}
 	return out
+}
+
+// genExts adds 1-3 required projects. Project i may load projects with a higher index
+// (cycles: only for the load property); a project something else loads need not be a direct
+// requirement of the root.
+func genExts(r *rand.Rand, p *projSpec, cycles bool) {
+	ne := 1 + r.IntN(3)
+	for i := 0; i < ne; i++ {
+		e := extSpec{Sel: r.IntN(len(extVersions)), Val: genValue(r, valueKinds[:14]), Lit: genValue(r, literalKinds), Loads: -1, Util: r.IntN(3) == 0, Yields: r.IntN(3), Same: r.IntN(6) == 0}
+		if i+1 < ne && r.IntN(2) == 0 {
+			e.Loads = i + 1 + r.IntN(ne-i-1)
+		}
+		p.Exts = append(p.Exts, e)
+	}
+	loaded := map[int]bool{}
+	for i := range p.Exts {
+		if p.Exts[i].Loads >= 0 {
+			loaded[p.Exts[i].Loads] = true
+		}
+	}
+	for i := range p.Exts {
+		if loaded[i] && r.IntN(100) < 40 {
+			p.Exts[i].Sel = -1 // reached through another project only
+		}
+	}
+	if cycles && ne > 1 && r.IntN(4) == 0 {
+		// the last project loads the first: a load cycle (and a requirement cycle) across projects
+		p.Exts[ne-1].Loads = r.IntN(ne - 1)
+	}
 }
